@@ -2,16 +2,19 @@
 E2 / repetition caps, for C05.
 
 Fandango has ONE number, the grammar's repetition cap (`Grammar.get_max_repetition`, 20 by default, raised by the
-adaptive tuner through `Grammar.set_max_repetition`), and uses it in two places:
+adaptive tuner through `Grammar.set_max_repetition`).  It limits what is GENERATED:
 
   * the generator: `Repetition.fuzz` draws `randint(min, self.max)` and `self.max` is the cap for every
     open-ended repetition — `*`, `+` and `{n,}` alike                                   → `capGrammar selAll c`
-  * the parser: `IterativeParser.visitRepetition` compiles `{n,}` to `node.max - n` nested helper rules, with the
-    cap read once when the grammar's parser is built; `visitStar` / `visitPlus` compile a right-recursive
-    rule with no bound                                                                   → `capGrammar selBraces c0`
+  * the parser (since b48dd899): `IterativeParser.visitRepetition` compiles an open-ended `{n,}` to `n` iterations
+    followed by a right-recursive tail, `visitStar` / `visitPlus` to a right-recursive rule — no bound: the parser
+    is compiled for the IR itself, the documented language (docs/Language.md: "Omitting M creates an infinite
+    upper bound")                                                                        → `capGrammar selNone _` = `G`
 
-`capNode sel c` puts the upper bound `c` on the open-ended repetitions of the kinds selected by `sel`; the
-documented language (docs/Language.md: "Omitting M creates an infinite upper bound") is the uncapped IR itself.
+`capNode sel c` puts the upper bound `c` on the open-ended repetitions of the kinds selected by `sel`.
+`selBraces` describes the parser BEFORE b48dd899 (`{n,}` compiled to `cap - n` nested helper rules with the cap
+read when the parser was built: finding F38, fixed); it is kept for the monotonicity lemmas of
+`Proofs/RepCap.lean` only and no property theorem is about it.
 No imports beyond the IR.
 -/
 import Model.IR
@@ -23,7 +26,7 @@ abbrev Sel := RepKind → Bool
 
 /-- the generator caps every open-ended repetition -/
 def selAll : Sel := fun _ => true
-/-- the parser caps `{n,}` only -/
+/-- `{n,}` only: the parser before b48dd899 (old rule, see the header) -/
 def selBraces : Sel := fun k => decide (k = RepKind.braces)
 /-- nothing is capped -/
 def selNone : Sel := fun _ => false
